@@ -33,6 +33,13 @@
 #include <boost/msm/backmp11/favor_compile_time.hpp>
 #endif
 
+#ifdef VF_SERIALIZE
+#include <sstream>
+#include <boost/archive/text_oarchive.hpp>
+#include <boost/archive/text_iarchive.hpp>
+#include <boost/archive/binary_oarchive.hpp>
+#include <boost/archive/binary_iarchive.hpp>
+#endif
 #include "env.hpp"
 
 namespace vf {
@@ -53,10 +60,21 @@ struct VBase {
     void accept(Visitor& v) const { v.ids.push_back(-7); }
 };
 
-template <int SID, class Base> struct ZS : Base {
+// every state carries a data word (bumped on entry); states with an odd id and all front-ends opt in to
+// serialization when the TU is built with -DVF_SERIALIZE
+template <int SID, bool OptIn = (SID % 2 == 1)> struct ZData { int vf_data = 0; };
+#ifdef VF_SERIALIZE
+template <int SID> struct ZData<SID, true> {
+    int vf_data = 0;
+    typedef int do_serialize;
+    template <class Ar> void serialize(Ar& ar, const unsigned int) { ar & vf_data; }
+};
+#endif
+
+template <int SID, class Base> struct ZS : Base, ZData<SID> {
     virtual int vsid() const { return SID; }
     void accept(Visitor& v) const { v.ids.push_back(SID); }
-    template <class E, class F> void on_entry(E const& e, F& f) { vf::callback('N', SID, e, f); }
+    template <class E, class F> void on_entry(E const& e, F& f) { this->vf_data += SID + 1; vf::callback('N', SID, e, f); }
     template <class E, class F> void on_exit(E const& e, F& f) { vf::callback('X', SID, e, f); }
 };
 
